@@ -176,7 +176,8 @@ var c14Binds = []struct{ key, action string }{
 	{"alt-3", "change-list-label(LBL)"},
 	{"alt-4", "clear-screen"},
 	{"alt-5", "offset-up"},
-	{"ctrl-z", "offset-down"},
+	{"ctrl-z", "offset-down+page-up"},
+	{"f10", "offset-up+page-down"},
 	{"alt-6", "offset-middle"},
 	{"alt-7", "show-header"},
 	{"alt-8", "hide-input"},
